@@ -16,6 +16,7 @@
 package jwt
 
 import (
+	"bytes"
 	"encoding/json"
 	"errors"
 	"fmt"
@@ -147,7 +148,9 @@ func (sk *SigningKeys) UnmarshalJSON(data []byte) error {
 	}
 	// read an array - we can have a string or an map
 	var a []interface{}
-	if err := json.Unmarshal(data, &a); err != nil {
+	dec := json.NewDecoder(bytes.NewReader(data))
+	dec.UseNumber()
+	if err := dec.Decode(&a); err != nil {
 		return err
 	}
 	for _, i := range a {
